@@ -716,3 +716,466 @@ theorem findfirst_all (root : XVal) (sought : List Str)
       · rcases ho with ho | ho
         · subst ho; simp at h; subst h; exact fun _ => Or.inl rfl
         · subst ho; simp at h; subst h; exact fun _ => Or.inr rfl
+
+/-! ## Part 2: the string forms
+
+### `'/'.join(steps)` split again by `xpath.replace("/[", "[").strip('/').split('/')` -/
+
+/-- a step that survives `'/'.join` followed by the path split: no `/` inside, not empty, does not
+begin with `[` (a leading `[` would be glued to the previous step by `replace("/[", "[")`) -/
+def StepOK (s : Str) : Prop := (∀ c ∈ s, c ≠ '/') ∧ s ≠ [] ∧ s.head? ≠ some '['
+
+theorem splitChar_noSep (c : Char) (a : Str) (h : ∀ x ∈ a, x ≠ c) : splitChar c a = [a] := by
+  induction a with
+  | nil => rfl
+  | cons x a ih =>
+    have hx : x ≠ c := h x (by simp)
+    simp [splitChar, hx, ih (fun y hy => h y (by simp [hy]))]
+
+theorem splitChar_append (c : Char) (a r : Str) (h : ∀ x ∈ a, x ≠ c) :
+    splitChar c (a ++ c :: r) = a :: splitChar c r := by
+  induction a with
+  | nil => simp [splitChar]
+  | cons x a ih =>
+    have hx : x ≠ c := h x (by simp)
+    simp [splitChar, hx, ih (fun y hy => h y (by simp [hy]))]
+
+theorem splitChar_join (steps : List Str) (hne : steps ≠ []) (h : ∀ s ∈ steps, ∀ c ∈ s, c ≠ '/') :
+    splitChar '/' (join ['/'] steps) = steps := by
+  induction steps with
+  | nil => exact absurd rfl hne
+  | cons x rest ih =>
+    cases rest with
+    | nil => simpa [join] using splitChar_noSep '/' x (h x (by simp))
+    | cons y ys =>
+      have := ih (by simp) (fun s hs => h s (by simp [hs]))
+      simp only [join, List.append_assoc, List.singleton_append]
+      rw [splitChar_append '/' x _ (h x (by simp)), this]
+
+theorem replSlashBr_cons (c : Char) (s : Str) (h : c ≠ '/') : replSlashBr (c :: s) = c :: replSlashBr s := by
+  rw [replSlashBr]
+  intro s' hc _
+  exact absurd hc h
+
+theorem replSlashBr_append (a r : Str) (h : ∀ x ∈ a, x ≠ '/') :
+    replSlashBr (a ++ r) = a ++ replSlashBr r := by
+  induction a with
+  | nil => rfl
+  | cons x a ih =>
+    rw [List.cons_append, replSlashBr_cons x _ (h x (by simp)), ih (fun y hy => h y (by simp [hy]))]
+    rfl
+
+theorem replSlashBr_noSlash (a : Str) (h : ∀ x ∈ a, x ≠ '/') : replSlashBr a = a := by
+  have := replSlashBr_append a [] h
+  simpa [replSlashBr] using this
+
+theorem replSlashBr_slash (y r : Str) (hy : y ≠ []) (hh : y.head? ≠ some '[') :
+    replSlashBr ('/' :: (y ++ r)) = '/' :: replSlashBr (y ++ r) := by
+  cases y with
+  | nil => exact absurd rfl hy
+  | cons c y =>
+    have hc : c ≠ '[' := by simpa using hh
+    rw [List.cons_append, replSlashBr]
+    intro s' _ hs
+    simp at hs
+    exact absurd hs.1 hc
+
+theorem replSlashBr_join (steps : List Str) (h : ∀ s ∈ steps, StepOK s) :
+    replSlashBr (join ['/'] steps) = join ['/'] steps := by
+  induction steps with
+  | nil => simp [join, replSlashBr]
+  | cons x rest ih =>
+    cases rest with
+    | nil => simpa [join] using replSlashBr_noSlash x (h x (by simp)).1
+    | cons y ys =>
+      have ihh := ih (fun s hs => h s (by simp [hs]))
+      have hy := h y (by simp)
+      simp only [join, List.append_assoc, List.singleton_append] at ihh ⊢
+      rw [replSlashBr_append x _ (h x (by simp)).1]
+      cases ys with
+      | nil =>
+        simp only [join] at ihh ⊢
+        have := replSlashBr_slash y [] hy.2.1 hy.2.2
+        simp only [List.append_nil] at this
+        rw [this, ihh]
+      | cons z zs =>
+        simp only [join, List.append_assoc, List.singleton_append] at ihh ⊢
+        rw [replSlashBr_slash y _ hy.2.1 hy.2.2, ihh]
+
+theorem join_cons_ne_nil (sep x : Str) (rest : List Str) (hx : x ≠ []) : join sep (x :: rest) ≠ [] := by
+  cases rest with
+  | nil => simpa [join] using hx
+  | cons y ys => simp [join, hx]
+
+theorem join_head_ok (steps : List Str) (h : ∀ s ∈ steps, StepOK s) :
+    ∀ c, (join ['/'] steps).head? = some c → c ≠ '/' := by
+  intro c hc
+  cases steps with
+  | nil => simp [join] at hc
+  | cons x rest =>
+    obtain ⟨h1, h2, _⟩ := h x (by simp)
+    cases x with
+    | nil => exact absurd rfl h2
+    | cons d x =>
+      have : (join ['/'] ((d :: x) :: rest)).head? = some d := by
+        cases rest <;> simp [join]
+      rw [this] at hc
+      cases hc
+      exact h1 c (by simp)
+
+theorem join_last_ok (steps : List Str) (h : ∀ s ∈ steps, StepOK s) :
+    ∀ c, (join ['/'] steps).getLast? = some c → c ≠ '/' := by
+  induction steps with
+  | nil => intro c hc; simp [join] at hc
+  | cons x rest ih =>
+    intro c hc
+    cases rest with
+    | nil =>
+      simp only [join] at hc
+      exact (h x (by simp)).1 c (List.mem_of_getLast? hc)
+    | cons y ys =>
+      have ihh := ih (fun s hs => h s (by simp [hs]))
+      have hne : join ['/'] (y :: ys) ≠ [] := join_cons_ne_nil _ _ _ (h y (by simp)).2.1
+      simp only [join, List.append_assoc] at hc
+      rw [List.getLast?_append, List.getLast?_append] at hc
+      cases hl : (join ['/'] (y :: ys)).getLast? with
+      | none => simp [List.getLast?_eq_none_iff] at hl; exact absurd hl hne
+      | some d =>
+        rw [hl] at hc
+        simp at hc
+        subst hc
+        exact ihh d hl
+
+theorem lstrip_keep (chars s : Str) (h : ∀ c, s.head? = some c → chars.contains c = false) :
+    lstrip chars s = s := by
+  unfold lstrip
+  cases s with
+  | nil => rfl
+  | cons c s =>
+    have := h c rfl
+    rw [List.dropWhile_cons_of_neg (by rw [this]; simp)]
+
+/-- the path split undoes `'/'.join` on steps without `/` that are not empty and do not begin with `[` -/
+theorem splitPath_join (steps : List Str) (hne : steps ≠ []) (h : ∀ s ∈ steps, StepOK s) :
+    splitPath (join ['/'] steps) = steps := by
+  unfold splitPath
+  rw [replSlashBr_join steps h]
+  unfold strip
+  rw [lstrip_keep ['/'] _ (by
+    intro c hc
+    have := join_head_ok steps h c hc
+    simp [this])]
+  rw [rstrip_keep ['/'] _ (by
+    intro c hc
+    have := join_last_ok steps h c hc
+    simp [this])]
+  exact splitChar_join steps hne (fun s hs => (h s hs).1)
+
+theorem join_isEmpty (steps : List Str) (hne : steps ≠ []) (h : ∀ s ∈ steps, StepOK s) :
+    (join ['/'] steps).isEmpty = false := by
+  cases steps with
+  | nil => exact absurd rfl hne
+  | cons x rest =>
+    have := join_cons_ne_nil ['/'] x rest (h x (by simp)).2.1
+    cases hj : join ['/'] (x :: rest) with
+    | nil => exact absurd hj this
+    | cons _ _ => rfl
+
+/-- string form of `get` on a joined path = list form on the steps -/
+theorem getS_join (root : XVal) (steps : List Str) (h : ∀ s ∈ steps, StepOK s) :
+    getS root (join ['/'] steps) = getL root steps := by
+  cases steps with
+  | nil => simp [getS, join, getL]
+  | cons x rest =>
+    unfold getS
+    rw [join_isEmpty _ (by simp) h, splitPath_join _ (by simp) h]
+    simp
+
+/-! ### positional paths `t1[k1]/…/tn[kn]` as strings -/
+
+/-- a tag that can be written into a path string: addressable (`goodTag`) and not empty -/
+def goodTagS (t : Str) : Bool := goodTag t && !t.isEmpty
+
+def renderIdxPath (p : List (Str × Nat)) : Str := join ['/'] (p.map renderStep)
+
+theorem dec_noSlash (k : Nat) : ∀ c ∈ dec k, c ≠ '/' := by
+  intro c hc e
+  obtain ⟨n, hn⟩ := (dec_isDigits k).2 c hc
+  have := (digitChar_spec n).1
+  rw [← hn, e] at this
+  revert this
+  decide
+
+theorem goodTag_noSlash (t : Str) (h : goodTag t = true) : ∀ c ∈ t, c ≠ '/' := by
+  intro c hc heq
+  subst heq
+  simp [goodTag] at h
+  exact h.1 hc
+
+theorem stepOK_indexed (t : Str) (k : Nat) (h : goodTagS t = true) :
+    StepOK (t ++ ('[' :: (dec k ++ [']']))) := by
+  simp only [goodTagS, Bool.and_eq_true, Bool.not_eq_true', List.isEmpty_eq_false_iff] at h
+  obtain ⟨hg, hne⟩ := h
+  refine ⟨?_, by simp, ?_⟩
+  · intro c hc
+    simp only [List.mem_append, List.mem_cons, List.not_mem_nil, or_false] at hc
+    rcases hc with hc | hc | hc | hc
+    · exact goodTag_noSlash t hg c hc
+    · subst hc; decide
+    · exact dec_noSlash k c hc
+    · subst hc; decide
+  · cases t with
+    | nil => exact absurd rfl hne
+    | cons c t =>
+      have := goodTag_noBr (c :: t) hg c (by simp)
+      simpa using this
+
+theorem stepOK_plain (t : Str) (h : goodTagS t = true) : StepOK t := by
+  simp only [goodTagS, Bool.and_eq_true, Bool.not_eq_true', List.isEmpty_eq_false_iff] at h
+  obtain ⟨hg, hne⟩ := h
+  refine ⟨goodTag_noSlash t hg, hne, ?_⟩
+  cases t with
+  | nil => exact absurd rfl hne
+  | cons c t =>
+    have := goodTag_noBr (c :: t) hg c (by simp)
+    simpa using this
+
+theorem getS_renderIdxPath (root : XVal) (p : List (Str × Nat)) (hp : ∀ q ∈ p, goodTagS q.1 = true) :
+    getS root (renderIdxPath p) = getL root (p.map renderStep) := by
+  unfold renderIdxPath
+  apply getS_join
+  intro s hs
+  obtain ⟨q, hq, rfl⟩ := List.mem_map.1 hs
+  exact stepOK_indexed q.1 q.2 (hp q hq)
+
+/-! ### every step list `_get` resolves in a document with good tags can be written as a string -/
+
+mutual
+/-- every tag below is addressable by `_get` and not empty -/
+def goodVS : XVal → Bool
+  | .text _ => true
+  | .nodes items => goodItemsS items
+def goodItemsS : List Item → Bool
+  | [] => true
+  | (t, _, v) :: rest => goodTagS t && goodVS v && goodItemsS rest
+end
+
+mutual
+theorem goodVS_goodV : ∀ (v : XVal), goodVS v = true → goodV v = true
+  | .text _, _ => by simp [goodV]
+  | .nodes items, h => by
+    simp only [goodVS] at h
+    simpa [goodV] using goodItemsS_goodItems items h
+theorem goodItemsS_goodItems : ∀ (items : List Item), goodItemsS items = true → goodItems items = true
+  | [], _ => by simp [goodItems]
+  | (t, a, v) :: rest, h => by
+    simp only [goodItemsS, Bool.and_eq_true] at h
+    have h1 : goodTag t = true := by
+      have := h.1.1
+      simp only [goodTagS, Bool.and_eq_true] at this
+      exact this.1
+    simp [goodItems, h1, goodVS_goodV v h.1.2, goodItemsS_goodItems rest h.2]
+end
+
+theorem scanItems_some (items : List Item) (name : Str) (idx : Int) (w : XVal)
+    (hg : goodItemsS items = true) (h : scanItems items name idx = some w) :
+    goodTagS name = true ∧ goodVS w = true := by
+  induction items generalizing idx with
+  | nil => simp [scanItems] at h
+  | cons it rest ih =>
+    obtain ⟨t, a, v⟩ := it
+    simp only [goodItemsS, Bool.and_eq_true] at hg
+    simp only [scanItems] at h
+    split at h
+    · rename_i ht
+      split at h
+      · simp at h; subst h; subst ht; exact ⟨hg.1.1, hg.1.2⟩
+      · exact ih _ hg.2 h
+    · exact ih _ hg.2 h
+
+theorem mem_dropWhile_of_not {α} (p : α → Bool) (l : List α) (c : α) (hc : c ∈ l) (hp : p c = false) :
+    c ∈ l.dropWhile p := by
+  induction l with
+  | nil => cases hc
+  | cons x l ih =>
+    by_cases hx : p x = true
+    · rw [List.dropWhile_cons_of_pos hx]
+      rcases List.mem_cons.1 hc with e | e
+      · subst e; rw [hp] at hx; cases hx
+      · exact ih e
+    · rw [List.dropWhile_cons_of_neg hx]; exact hc
+
+theorem mem_stripWs (s : Str) (c : Char) (hc : c ∈ s) (hp : isPySpace c = false) : c ∈ stripWs s := by
+  unfold stripWs
+  rw [List.mem_reverse]
+  apply mem_dropWhile_of_not _ _ _ _ hp
+  rw [List.mem_reverse]
+  exact mem_dropWhile_of_not _ _ _ hc hp
+
+theorem digitsUS_chars (r : Str) : ∀ (prev : Bool) (acc n : Nat), digitsUS prev acc r = some n →
+    ∀ c ∈ r, isAsciiDigit c = true ∨ c = '_' := by
+  induction r with
+  | nil => intro _ _ _ _ c hc; cases hc
+  | cons x r ih =>
+    intro prev acc n h c hc
+    rw [digitsUS] at h
+    · split at h
+      · rename_i hd
+        rcases List.mem_cons.1 hc with e | e
+        · subst e; exact Or.inl hd
+        · exact ih _ _ _ h c e
+      · split at h
+        · rename_i hu
+          rcases List.mem_cons.1 hc with e | e
+          · subst e; exact Or.inr hu.1
+          · exact ih _ _ _ h c e
+        · cases h
+
+/-- `int(text)` accepts no text with a `/` in it -/
+theorem pyInt_ok_noSlash (s : Str) (i : Int) (h : pyInt s = .ok i) : ∀ c ∈ s, c ≠ '/' := by
+  intro c hc e
+  subst e
+  have hin : '/' ∈ stripWs s := mem_stripWs s '/' hc (by decide)
+  unfold pyInt at h
+  split at h
+  · cases h
+  · have hno : ∀ r n, digitsUS false 0 r = some n → '/' ∈ r → False := by
+      intro r n hr hm
+      rcases digitsUS_chars r _ _ _ hr '/' hm with h1 | h1
+      · revert h1; decide
+      · revert h1; decide
+    simp only at h
+    split at h
+    · rename_i r heq
+      rw [heq] at hin
+      have hm : '/' ∈ r := by simpa using hin
+      cases hd : digitsUS false 0 r with
+      | none => rw [hd] at h; cases h
+      | some n => exact hno r n hd hm
+    · rename_i r heq
+      rw [heq] at hin
+      have hm : '/' ∈ r := by simpa using hin
+      cases hd : digitsUS false 0 r with
+      | none => rw [hd] at h; cases h
+      | some n => exact hno r n hd hm
+    · cases hd : digitsUS false 0 (stripWs s) with
+      | none => rw [hd] at h; cases h
+      | some n => exact hno _ n hd hin
+
+theorem nxml_mem_takeWhile {α} (p : α → Bool) (l : List α) (c : α) (h : c ∈ l.takeWhile p) : p c = true := by
+  induction l with
+  | nil => cases h
+  | cons x l ih =>
+    by_cases hx : p x = true
+    · rw [List.takeWhile_cons_of_pos hx] at h
+      rcases List.mem_cons.1 h with e | e
+      · subst e; exact hx
+      · exact ih e
+    · rw [List.takeWhile_cons_of_neg hx] at h; cases h
+
+theorem nxml_dropWhile_head {α} (p : α → Bool) (l : List α) (x : α) (d : List α)
+    (h : l.dropWhile p = x :: d) : p x = false := by
+  induction l with
+  | nil => cases h
+  | cons y l ih =>
+    by_cases hy : p y = true
+    · rw [List.dropWhile_cons_of_pos hy] at h; exact ih h
+    · rw [List.dropWhile_cons_of_neg hy] at h
+      cases h
+      simpa using hy
+
+theorem rstrip_decomp (chars s : Str) :
+    ∃ tail, s = rstrip chars s ++ tail ∧ ∀ c ∈ tail, chars.contains c = true := by
+  refine ⟨(s.reverse.takeWhile (fun c => chars.contains c)).reverse, ?_, ?_⟩
+  · unfold rstrip
+    rw [← List.reverse_append, List.takeWhile_append_dropWhile, List.reverse_reverse]
+  · intro c hc
+    rw [List.mem_reverse] at hc
+    exact nxml_mem_takeWhile _ _ _ hc
+
+/-- a step `_get` reads as `(name, idx)` with a good `name` survives the join/split round trip -/
+theorem getStep_ok_shape (step name : Str) (idx : Int) (h : getStep step = .ok (name, idx))
+    (hn : goodTagS name = true) : StepOK step := by
+  unfold getStep at h
+  split at h
+  · simp only at h
+    obtain ⟨tail, hdec, htail⟩ := rstrip_decomp [']'] step
+    generalize rstrip [']'] step = t at h hdec
+    cases hp : pyInt ((t.dropWhile (fun c => c ≠ '[')).drop 1) with
+    | error e => rw [hp] at h; cases h
+    | ok i =>
+      rw [hp] at h
+      simp only [Except.ok.injEq, Prod.mk.injEq] at h
+      obtain ⟨hname, _⟩ := h
+      have hsplit : t = name ++ t.dropWhile (fun c => c ≠ '[') := by
+        rw [← hname, List.takeWhile_append_dropWhile]
+      have hok := stepOK_plain name hn
+      have hd : ∀ c ∈ t.dropWhile (fun c => c ≠ '['), c ≠ '/' := by
+        intro c hc
+        cases hdw : t.dropWhile (fun c => c ≠ '[') with
+        | nil => rw [hdw] at hc; cases hc
+        | cons x d' =>
+          rw [hdw] at hc hp
+          have hx : x = '[' := by
+            have := nxml_dropWhile_head _ _ _ _ hdw
+            simpa using this
+          rcases List.mem_cons.1 hc with e | e
+          · rw [e, hx]; decide
+          · exact pyInt_ok_noSlash _ _ hp c (by simpa using e)
+      rw [hdec, hsplit]
+      refine ⟨?_, ?_, ?_⟩
+      · intro c hc
+        simp only [List.mem_append] at hc
+        rcases hc with (hc | hc) | hc
+        · exact hok.1 c hc
+        · exact hd c hc
+        · have := htail c hc
+          intro e; subst e; simp at this
+      · have := hok.2.1
+        simp [this]
+      · cases hnm : name with
+        | nil => exact absurd hnm hok.2.1
+        | cons c nm =>
+          have := hok.2.2
+          rw [hnm] at this
+          simpa using this
+  · simp only [Except.ok.injEq, Prod.mk.injEq] at h
+    rw [h.1]
+    exact stepOK_plain name hn
+
+/-- every path `_get` resolves to a value in a document with good tags consists of steps that
+survive `'/'.join` + the path split -/
+theorem getL_ok_steps (root : XVal) (path : List Str) (v : XVal) (hg : goodVS root = true)
+    (h : getL root path = .ok (some v)) : ∀ s ∈ path, StepOK s := by
+  induction path generalizing root with
+  | nil => intro s hs; cases hs
+  | cons step rest ih =>
+    rw [getL] at h
+    cases hs : getStep step with
+    | error e => rw [hs] at h; simp at h
+    | ok ni =>
+      obtain ⟨name, idx⟩ := ni
+      rw [hs] at h
+      simp only at h
+      cases root with
+      | text t => simp at h
+      | nodes items =>
+        simp only at h
+        cases hsc : scanItems items name idx with
+        | none => rw [hsc] at h; simp at h
+        | some w =>
+          rw [hsc] at h
+          simp only at h
+          have hgi : goodItemsS items = true := by simpa [goodVS] using hg
+          obtain ⟨hn, hw⟩ := scanItems_some items name idx w hgi hsc
+          intro s hs'
+          rcases List.mem_cons.1 hs' with e | e
+          · subst e; exact getStep_ok_shape _ name idx hs hn
+          · exact ih w hw h s e
+
+/-- **string form of "resolves through get"**: a `(path, value)` pair that resolves through the
+list form of `get` also resolves through `get('/'.join(path))` -/
+theorem getS_of_getL (root : XVal) (path : List Str) (v : XVal) (hg : goodVS root = true)
+    (h : getL root path = .ok (some v)) : getS root (join ['/'] path) = .ok (some v) := by
+  rw [getS_join root path (getL_ok_steps root path v hg h)]
+  exact h
